@@ -27,6 +27,12 @@ var instrumentedFuncs = map[string]bool{
 	"runtime.Gosched": true, "time.Sleep": true,
 }
 
+var tryLockName = map[string]string{
+	"(*sync.Mutex).Lock":    "TryLock",
+	"(*sync.RWMutex).Lock":  "TryLock",
+	"(*sync.RWMutex).RLock": "TryRLock",
+}
+
 func isInstrumentedFunc(f *types.Func) bool {
 	name := f.FullName()
 	if instrumentedFuncs[name] {
@@ -119,6 +125,19 @@ func instrumentFile(fset *token.FileSet, file *ast.File, info *types.Info, pkg *
 		case *ast.ExprStmt:
 			if call := syncCall(n.X); call != nil && !handled[call] {
 				handled[call] = true
+				// lock acquisitions go through TryLock under the recorded schedule
+				if f := calleeFunc(info, call); f != nil {
+					if try, ok := tryLockName[f.FullName()]; ok {
+						if sel, ok := call.Fun.(*ast.SelectorExpr); ok {
+							acq := &ast.CallExpr{Fun: ast.NewIdent("vsAcquire"), Args: []ast.Expr{
+								&ast.SelectorExpr{X: sel.X, Sel: ast.NewIdent(try)},
+								&ast.SelectorExpr{X: sel.X, Sel: ast.NewIdent(sel.Sel.Name)},
+							}}
+							c.Replace(&ast.ExprStmt{X: acq})
+							return true
+						}
+					}
+				}
 				c.Replace(&ast.BlockStmt{List: []ast.Stmt{callStmt("vsBefore"), &ast.ExprStmt{X: call}, callStmt("vsAfter")}})
 			} else if u, ok := n.X.(*ast.UnaryExpr); ok && u.Op == token.ARROW && !inSelectComm[u] {
 				c.Replace(&ast.BlockStmt{List: []ast.Stmt{callStmt("vsBefore"), &ast.ExprStmt{X: u}, callStmt("vsAfter")}})
